@@ -226,8 +226,13 @@ pub(crate) fn lehmer_step(x: &mut [Word], y: &mut [Word], a: Word, b: Word, c: W
 #[inline]
 pub fn memory_requirement_up_to(lhs_len: usize, rhs_len: usize) -> Layout {
     // Required memory:
-    // - temporary space for the division in the euclidean step
-    div::memory_requirement_exact(lhs_len, rhs_len)
+    // - temporary space for the divisions in the euclidean steps. The operands shrink while
+    //   the algorithm runs, and dividing shorter operands can need *more* scratch space than
+    //   dividing the initial ones (e.g. none at all when their lengths are close), so this has
+    //   to bound every division that can occur: the divisor never exceeds rhs_len words and
+    //   the smaller factor of the multiplications inside a division is at most half of it.
+    let _ = lhs_len;
+    mul::memory_requirement_up_to(rhs_len, rhs_len / 2)
 }
 
 pub(crate) fn gcd_in_place(
